@@ -2,6 +2,7 @@ import WuffsVerif.Common.Line
 import WuffsVerif.Model.ObjProto
 import WuffsVerif.Model.IOBuf
 import WuffsVerif.Model.CallSeq
+import WuffsVerif.Model.ProbeVM
 /-! Line driver for C08 (call protocol, I/O buffer contract, call_sequence). Stateful.
 
   reset <fill> <sizeof> <vmajor> <vminor> <methods>      -> ok
@@ -16,6 +17,9 @@ import WuffsVerif.Model.CallSeq
       derived: `,`-separated r.<name> | w.<name> (or `-`); args: `/`-separated <name>:<argspec> (or `-`)
   tmplinit                                                -> initializer event sequence
   cseq <gif|png> <cs> <dic|dfc|df|tmm|rf> <resumed01> <cls> <cs'>   -> rejected | allowed <cs'> | unexpected <cls> <cs'>
+  vm <idx> <selfnull01> <src> <dst> <proghex>             -> <status> <magic> <active> src=… dst=… pc=… p=… scratch=…
+      the probe's bytecode interpreter `thing.vm?` (Model/ProbeVM.lean); src/dst: <mode>,<memhex>,<ri>,<wi>,<closed01>
+      with mode 0 = NULL pointer, 1 = buffer over memhex, 2 = buffer without data.ptr
   io <r|w> <memhex> <len> <ri> <wi> <closed01> <hasptr01> <instrs>  -> <ri> <wi> <len> <closed01> <memhex>
       instrs: `,`-separated rd<n> | sk<n> | un | wr<hex> | wp<hex> | ch<n>:<d> | lb<n> | le   (or `-`)
 -/
@@ -24,6 +28,8 @@ open WuffsVerif WuffsVerif.Line WuffsVerif.ObjProto
 structure DState where
   d : StructDesc := { sizeofSelf := 0, verMajor := 0, verMinor := 0, methods := [] }
   o : Obj := Obj.zeroed
+  /-- the probe object's `f_pc`, `p_vm`, `s_vm.scratch` (only used by the `vm` op) -/
+  vm : ProbeVM.VM := { pc := 0, p := 0, scratch := 0 }
 
 def parseBool (s : String) : Option Bool :=
   if s == "0" then some false else if s == "1" then some true else none
@@ -183,6 +189,66 @@ def parseNamedArg (s : String) : Option (String × ArgSpec) :=
   | [n, sp] => (parseArgSpec sp).map fun a => (n, a)
   | _ => none
 
+/-! probe `vm` op -/
+open WuffsVerif.IOBuf in
+def parseBufDesc (s : String) : Option (Nat × Buf) :=
+  match s.splitOn "," with
+  | [mode, mem, ri, wi, closed] => do
+    let md ← mode.toNat?
+    let m ← fromHex mem
+    let ri ← ri.toNat?
+    let wi ← wi.toNat?
+    let c ← parseBool closed
+    if md == 1 then
+      pure (1, { mem := m, len := m.length, ri := ri, wi := wi, pos := 0, closed := c, hasPtr := true })
+    else if md == 2 then
+      pure (2, { mem := [], len := 0, ri := 0, wi := 0, pos := 0, closed := c, hasPtr := false })
+    else if md == 0 then
+      pure (0, { mem := [], len := 0, ri := 0, wi := 0, pos := 0, closed := false, hasPtr := false })
+    else none
+  | _ => none
+
+open WuffsVerif.IOBuf in
+def showBuf (name : String) (mode : Nat) (b : Buf) (withMem : Bool) : String :=
+  s!"{name}={mode},{b.ri},{b.wi},{b.len},{if b.closed then 1 else 0}" ++
+    (if withMem then "," ++ toHex b.mem else "")
+
+def vmStatusText : Status → String
+  | .ok => "ok"
+  | .note _ => "@probe:_probe_note"
+  | .susp 1 => "$probe:_probe_suspension"
+  | .susp 2 => "$base:_short_read"
+  | .susp _ => "$base:_short_write"
+  | .err (.user _) => "#probe:_probe_error"
+  | .err e => errText e
+
+/-- Do the prologue checks of `callMethod` let the body run? -/
+def bodyRuns (m : Method) (o : Obj) (sn : Bool) (args : List ArgVal) : Bool :=
+  !m.skipsPrologue && !sn && !magicBad m o && !argsBad m.args args &&
+    !(m.effect == .coroutine && o.active != 0 && o.active != m.coroID)
+
+def vmOp (st : DState) (idx sn src dst prog : String) : Option (DState × String) := do
+  let idx ← idx.toNat?
+  let sn ← parseBool sn
+  let (smode, sb) ← parseBufDesc src
+  let (dmode, db) ← parseBufDesc dst
+  let pr ← fromHex prog
+  let m ← st.d.methods[idx]?
+  let args : List ArgVal := [.ptr (dmode == 0), .ptr (smode == 0), .other]
+  let res := ProbeVM.callVM pr st.vm sb db
+  let runs := bodyRuns m st.o sn args
+  let (o', r) := step st.d st.o (.meth idx sn args res.body)
+  let vm' := if runs then res.vm else st.vm
+  let sb' := if runs then res.src else sb
+  let db' := if runs then res.dst else db
+  let rs := match r with
+    | .st s => vmStatusText s
+    | .zero => "z"
+    | .value => "v"
+  let scr := if vm'.p == 3 || vm'.p == 4 then vm'.scratch else 0
+  pure ({ st with o := o', vm := vm' },
+    s!"{rs} {showObj o'} {showBuf "src" smode sb' false} {showBuf "dst" dmode db' true} pc={vm'.pc} p={vm'.p} scratch={scr}")
+
 def c08Step (st : DState) (l : List String) : DState × String :=
   match l with
   | ["reset", fill, sz, vmaj, vmin, ms] =>
@@ -191,13 +257,20 @@ def c08Step (st : DState) (l : List String) : DState × String :=
     | some f, some sz, some vj, some vn, some ml =>
       let word := f * 0x01010101
       let o : Obj := if f == 0 then Obj.zeroed else { magic := word, active := word, susp := fun _ => word }
-      ({ d := { sizeofSelf := sz, verMajor := vj, verMinor := vn, methods := ml }, o := o }, "ok")
+      let w64 := f * 0x0101010101010101
+      ({ d := { sizeofSelf := sz, verMajor := vj, verMinor := vn, methods := ml }, o := o,
+         vm := { pc := w64, p := word, scratch := w64 } }, "ok")
     | _, _, _, _, _ => (st, "bad-op")
   | ["init", sn, sz, ver, opts] =>
     match parseBool sn, sz.toNat?, ver.toNat?, opts.toNat? with
     | some sn, some sz, some ver, some opts =>
       let (o', s) := initObj st.d st.o sn sz ver opts
-      ({ st with o := o' }, showRet (.st s) "ok" ++ " " ++ showObj o')
+      -- what the memsets of a successful initialize do to the probe's other fields
+      let vm' : ProbeVM.VM :=
+        if s != .ok || opts &&& ALREADY_ZEROED != 0 then st.vm
+        else if opts &&& LEAVE_INTERNAL_BUFFERS_UNINITIALIZED == 0 then { pc := 0, p := 0, scratch := 0 }
+        else { pc := 0, p := 0, scratch := st.vm.scratch }
+      ({ st with o := o', vm := vm' }, showRet (.st s) "ok" ++ " " ++ showObj o')
     | _, _, _, _ => (st, "bad-op")
   | ["call", idx, sn, args, hint] =>
     match idx.toNat?, parseBool sn, parseArgVals args with
@@ -225,6 +298,7 @@ def c08Step (st : DState) (l : List String) : DState × String :=
   | ["tmplinit"] => (st, initShape)
   | ["cseq", codec, cs, meth, resumed, cls, cs'] =>
     (st, (cseqOp codec cs meth resumed cls cs').getD "bad-op")
+  | ["vm", idx, sn, src, dst, prog] => (vmOp st idx sn src dst prog).getD (st, "bad-op")
   | ["io", role, mem, len, ri, wi, closed, hasptr, instrs] =>
     (st, (ioOp role mem len ri wi closed hasptr instrs).getD "bad-op")
   | _ => (st, "bad-op")
